@@ -7,6 +7,7 @@ use gm_sm9::fields::FieldElement;
 use gm_sm9::key::{Sm9EncKey, Sm9EncMasterKey};
 use gm_sm9::verif as hook;
 use num_bigint::BigUint;
+use rayon::prelude::*;
 use num_traits::{One, Zero};
 use refmodels::sm3;
 use refmodels::sm9::{self, F12, G1, G2};
@@ -249,6 +250,27 @@ pub fn eval(ctx: &Ctx, case: &Case) {
                         ct.extend(std::iter::repeat(0xa5).take(extra));
                     }
                     "other-identity" => id2.push(b'x'),
+                    // the same three fields in another order / with fields exchanged (a "legacy layout" fallback would accept)
+                    "layout-C1C2C3" => {
+                        ct = good[..65].to_vec();
+                        ct.extend_from_slice(&good[97..]);
+                        ct.extend_from_slice(&good[65..97]);
+                    }
+                    "layout-C3C1C2" => {
+                        ct = vec![0x04];
+                        ct.extend_from_slice(&good[65..97]);
+                        ct.extend_from_slice(&good[1..65]);
+                        ct.extend_from_slice(&good[97..]);
+                    }
+                    "C3=SM3(K2||C2)" => {
+                        // the MAC with its two inputs in the other order (what this library computed before its repair)
+                        let mut z = sm9::g1_bytes(&base.c1).to_vec();
+                        z.extend_from_slice(&sm9::f12_bytes(&sm9::f12_pow(&g, &r)));
+                        z.extend_from_slice(&idb);
+                        let k = sm3::kdf(&z, msg.len() + 32);
+                        let mac = refmodels::sm3::sm3_cat(&[&k[msg.len()..], &good[97..]]);
+                        ct[65..97].copy_from_slice(&mac);
+                    }
                     "C1-off-curve(y+1)/orig-body" => ct[33..65].copy_from_slice(&cand(&((&y + 1u32) % &pr.p))),
                     "C1-off-curve(y+1)/invalid-curve-completed" => match complete(&Some((x.clone(), (&y + 1u32) % &pr.p)), &idb) {
                         Some(v) => ct = v,
@@ -335,7 +357,7 @@ pub const ANNEX_R: &str = "0000AAC0541779C8FC45E3E2CB25C12B5D2576B2129AE8BB5EE2C
 pub fn run(ctx: &Arc<Ctx>) {
     refmodels::selftest::run(&["sm3", "sm9"]).unwrap_or_else(|e| ctx.machinery_error(format!("reference self-test failed: {}", e)));
     let n = sm9::params().n.clone();
-    ctx.set_rule("encryption: every message length 1..=255 with one (master, identity, r); masters {Annex ke, N-2, seeded} x identities {Bob,'',seeded, 12 normalisation-sensitive variants of one name} x nonces {1,2,N-2,Annex r,2^255+1,seeded} at length 20; the GM/T 0044.5 example, key objects holding Ppub-e / de in Jacobian representations with structured Z (Z in Fp, purely imaginary, generic), all-zero and all-ones messages, a sender object holding only the master public key, nonces crafted so that K1 is all zero (step A6 retry): ciphertext = reference C1||C3||C2 byte for byte for the accepted r (MAC = SM3(C2||K2)), library and reference decryptors recover M. Conforming ciphertexts whose C1 has a boundary coordinate (x = p-1, smallest x, y = R^-1) must decrypt. Decryption of reference-made ciphertexts (lengths {1,20}, thorough +{32,255}): untouched must decrypt; every single-bit flip, every truncation, extension, over-long bodies, other identity, foreign tags, C1 off-curve with the original body and with the body recomputed for the foreign point (invalid-curve attack, using the library's own pairing), (0,0) with the original body and with bodies forged for a constant pairing value, unreduced coordinates (all-ones and the v+p aliases of the same point over 12 further nonces), another valid point: all must be refused with an error, never a plaintext, never a panic.");
+    ctx.set_rule("encryption: every message length 1..=255 with one (master, identity, r); masters {Annex ke, N-2, seeded} x identities {Bob,'',seeded, 12 normalisation-sensitive variants of one name} x nonces {1,2,N-2,Annex r,2^255+1,seeded} at length 20; the GM/T 0044.5 example, key objects holding Ppub-e / de in Jacobian representations with structured Z (Z in Fp, purely imaginary, generic), all-zero and all-ones messages, a sender object holding only the master public key, nonces searched so that K1 starts or ends with a zero byte (must still decrypt), nonces crafted so that K1 is all zero (step A6 retry): ciphertext = reference C1||C3||C2 byte for byte for the accepted r (MAC = SM3(C2||K2)), library and reference decryptors recover M. Conforming ciphertexts whose C1 has a boundary coordinate (x = p-1, smallest x, y = R^-1) must decrypt. Decryption of reference-made ciphertexts (lengths {1,20}, thorough +{32,255}): untouched must decrypt; every single-bit flip, every truncation, extension, over-long bodies, other identity, the fields in another order (C1||C2||C3, C3||C1||C2), the MAC with its inputs swapped, foreign tags, C1 off-curve with the original body and with the body recomputed for the foreign point (invalid-curve attack, using the library's own pairing), (0,0) with the original body and with bodies forged for a constant pairing value, unreduced coordinates (all-ones and the v+p aliases of the same point over 12 further nonces), another valid point: all must be refused with an error, never a plaintext, never a panic.");
     let mut g = SplitMix::new(ctx.seed, "c10");
     let mut cases: Vec<Case> = Vec::new();
     cases.push(Case::Enc { ke: ANNEX_KE.into(), id: "Bob".into(), msg_len: 20, r: ANNEX_R.into(), tag: "annex-example".into() });
@@ -354,6 +376,30 @@ pub fn run(ctx: &Arc<Ctx>) {
     }
     for t in ["public-only", "public-only/"] {
         cases.push(Case::Enc { ke: ANNEX_KE.into(), id: "Bob".into(), msg_len: 20, r: ANNEX_R.into(), tag: t.into() });
+    }
+    // nonces searched so that K1 has a zero FIRST or LAST byte without being all zero (messages of 2..9 bytes): genuine
+    // ciphertexts that must be produced and must decrypt (a zero test on part of K1 refuses them)
+    {
+        let (ppube, gg) = master(&hb(ANNEX_KE));
+        let mut found = 0;
+        for (mlen, first) in [(2usize, true), (5, true), (8, false), (9, true)] {
+            let msg = content("seed", mlen, ctx.seed);
+            let hit: Option<BigUint> = (0..4000u32).into_par_iter().find_map_first(|i| {
+                let r = SplitMix::new(ctx.seed ^ (i as u64) << 8, "c10k1zero").nonzero_below(&(&n - 2u32));
+                let ct = sm9::encrypt_with_r(&gg, &ppube, b"Bob", &msg, &r)?;
+                let k1: Vec<u8> = ct.c2.iter().zip(msg.iter()).map(|(a, b)| a ^ b).collect();
+                let z = if first { k1[0] == 0 } else { k1[mlen - 1] == 0 };
+                if z && k1.iter().any(|b| *b != 0) { Some(r) } else { None }
+            });
+            if let Some(r) = hit {
+                found += 1;
+                cases.push(Case::Enc { ke: ANNEX_KE.into(), id: "Bob".into(), msg_len: mlen, r: hexbig(&r), tag: if first { "K1-first-byte-zero".into() } else { "K1-last-byte-zero".into() } });
+            }
+        }
+        ctx.cov("nonces_with_a_zero_byte_at_an_end_of_K1", serde_json::json!(found));
+        if found == 0 {
+            ctx.machinery_error("no nonce with a zero first / last byte of K1 found");
+        }
     }
     // conforming ciphertexts whose C1 has a boundary coordinate: x = p - 1 (both roots: (-1)^3 + 5 = 4), the smallest x on
     // the curve, coordinates whose Montgomery form is a small integer
@@ -434,7 +480,7 @@ pub fn run(ctx: &Arc<Ctx>) {
         let id = ["Bob", "len:40"][bi % 2];
         let r = hexbig(&rs[(bi + 3) % rs.len()].1);
         let total = 97 + l;
-        let mut tampers: Vec<String> = vec!["none", "extended", "mlen-256", "mlen-300", "other-identity", "C1-off-curve(y+1)/orig-body", "C1-off-curve(y+1)/invalid-curve-completed", "C1-off-curve(random)/invalid-curve-completed", "C1=(0,0)", "C1=(0,0)/body-for-w=1", "C1=(0,0)/body-for-w=0", "C1-x>=p", "C1-x+p-alias", "C1-y+p-alias", "C1-other-valid-point", "tag=02", "tag=00"].iter().map(|s| s.to_string()).collect();
+        let mut tampers: Vec<String> = vec!["none", "extended", "mlen-256", "mlen-300", "other-identity", "layout-C1C2C3", "layout-C3C1C2", "C3=SM3(K2||C2)", "C1-off-curve(y+1)/orig-body", "C1-off-curve(y+1)/invalid-curve-completed", "C1-off-curve(random)/invalid-curve-completed", "C1=(0,0)", "C1=(0,0)/body-for-w=1", "C1=(0,0)/body-for-w=0", "C1-x>=p", "C1-x+p-alias", "C1-y+p-alias", "C1-other-valid-point", "tag=02", "tag=00"].iter().map(|s| s.to_string()).collect();
         for b in 0..total * 8 {
             tampers.push(format!("bit:{}", b));
         }
